@@ -446,6 +446,8 @@ def run_multi(ctx, rp, level, cfg, tag, max_paths=None, nvariants=3, workers=4):
         must.append("Probe")
     if any("block" in k for k in cfg["kinds"].values()):
         must.append("Block")
+    if any("ask" in k for k in cfg["kinds"].values()):
+        must += ["Ask", "Suspend"]
     res, g = graph_replay(ctx, "Mutex", "MutexMulti", "MutexMulti_base.cfg", tag, rp, lambda st: proj_multi(st, cfg, level),
                           header_fn=lambda k, st0: header_multi(cfg, k, nvariants), defs=multi_defs(cfg), must_take=must,
                           variants=[{} for v in range(nvariants)],
@@ -458,7 +460,9 @@ MULTI_QUICK = [
     # two mutexes, private ownership objects, callback waiters behind both, a bystander probing: independence of the objects
     MM({"a": "plain", "b": "plain", "c": "plain"}, kinds={"b": ["lock"], "c": ["lock"]}),
     # one shared holder slot, a party that releases from inside its grant, a coroutine among callback parties
-    MM({"a": "plain", "b": "plain", "c": "co"}, slots="holder", through=["b"], mutexes=["m1"], maxops=7),
+    # (a also makes its callback request as two separate calls, await_ready() ... await_suspend(), with a release in between)
+    MM({"a": "plain", "b": "plain", "c": "co"}, slots="holder", through=["b"], mutexes=["m1"], maxops=7,
+       kinds={"a": ["try", "lock", "ask"]}),
     # two resources with a shared holder slot each: the next owner's callback assigns the slot the releaser is inside of
     MM({"a": "plain", "b": "plain", "c": "plain"}, slots="holder", maxops=5),
     # coroutines holding one mutex while requesting the other, ONE ownership object per party (acquiring over it releases)
